@@ -49,7 +49,8 @@ def make_small(rng):
     k = rng.randint(1, 5)
     for c in range(k):
         kind = rng.choice(['int_unique', 'int_dup', 'float_nan', 'str', 'str_nan', 'obj_mixed', 'bool',
-                           'str_unique', 'all_nan', 'unique_but_one_nan'])
+                           'str_unique', 'all_nan', 'unique_but_one_nan', 'Int64_na', 'boolean_na',
+                           'Float64_na', 'string_na', 'Int64_unique_one_na', 'many_nan_float'])
         name = 'c%d_%s' % (c, kind)
         if kind == 'int_unique':
             cols[name] = pd.Series(rng.sample(range(10 * n + 5), n), dtype='int64')
@@ -69,6 +70,25 @@ def make_small(rng):
                                    dtype=object)
         elif kind == 'bool':
             cols[name] = pd.Series([rng.random() < 0.5 for _ in range(n)], dtype='bool')
+        elif kind == 'Int64_na':
+            cols[name] = pd.array([pd.NA if rng.random() < 0.3 else rng.randint(0, n) for _ in range(n)],
+                                  dtype='Int64')
+        elif kind == 'boolean_na':
+            cols[name] = pd.array([pd.NA if rng.random() < 0.3 else (rng.random() < 0.5) for _ in range(n)],
+                                  dtype='boolean')
+        elif kind == 'Float64_na':
+            cols[name] = pd.array([pd.NA if rng.random() < 0.3 else rng.choice([0.5, 1.5, float(i)])
+                                   for i in range(n)], dtype='Float64')
+        elif kind == 'string_na':
+            cols[name] = pd.array([pd.NA if rng.random() < 0.3 else 'v%d' % rng.randint(0, n)
+                                   for _ in range(n)], dtype='string')
+        elif kind == 'Int64_unique_one_na':
+            vals = rng.sample(range(10 * n + 5), n)
+            vals[rng.randrange(n)] = pd.NA
+            cols[name] = pd.array(vals, dtype='Int64')
+        elif kind == 'many_nan_float':
+            cols[name] = pd.Series([np.nan if rng.random() < 0.6 else float(rng.randint(0, 3)) for _ in range(n)],
+                                   dtype='float64')
         elif kind == 'str_unique':
             cols[name] = pd.Series(['u%d' % i for i in rng.sample(range(10 * n + 5), n)], dtype=object)
         elif kind == 'all_nan':
@@ -78,8 +98,11 @@ def make_small(rng):
             vals[rng.randrange(n)] = None
             cols[name] = pd.Series(vals, dtype=object)
     df = pd.DataFrame(cols)
-    if rng.random() < 0.3:
+    r = rng.random()
+    if r < 0.3:
         df.index = rng.sample(range(1000, 1000 + 10 * n), n)
+    elif r < 0.45:
+        df.index = [i % 3 for i in range(n)]          # repeated labels
     return df
 
 
@@ -198,7 +221,10 @@ def run_case(case, rec, ssj=None):
     snap = T.snapshot_df(df) if len(df) < 100 else None
     tag = 'profile_table_for_join(%d rows, attrs=%r): ' % (len(df), attrs)
     try:
-        out = ssj.profile_table_for_join(df, attrs)
+        if attrs is None and rng.random() < 0.6:
+            out = ssj.profile_table_for_join(df)            # argument omitted
+        else:
+            out = ssj.profile_table_for_join(df, attrs)
     except Exception as e:
         rec.violation('raises', tag + 'raised %s: %s' % (type(e).__name__, str(e)[:200]), case=case)
         return 0
